@@ -431,6 +431,7 @@ class Bench:
         worst = None
         moved_log = []
         relerr_max = F(0)
+        margin_rel = F(1)       # smallest relative distance of the request from a feasibility boundary (C18 uses it)
         fresh_src = self.is_fresh(s)
         for k, (cs, cd) in enumerate(pairs):
             vs, vd = get('s', cs), get('d', cd)
@@ -450,8 +451,10 @@ class Bench:
             if value < 0:
                 return {'status': 'must_refuse', 'why': 'negative', 'pair': k}
             m_src = T - value
+            if max(T, abs(value)) > 0:
+                margin_rel = min(margin_rel, abs(m_src) / max(T, abs(value)))
             if m_src < 0 and m_src <= -band_src:
-                return {'status': 'must_refuse', 'why': 'overdraw', 'pair': k}
+                return {'status': 'must_refuse', 'why': 'overdraw', 'pair': k, 'margin_rel': margin_rel}
             if m_src < band_src:
                 if m_src == 0 and T > 0 and k == 0 and fresh_src and self.exact_total_ok(T, unit):
                     self.stats['probe:whole_content_transfer'] += 1
@@ -484,8 +487,10 @@ class Bench:
             if vd.cap is not None:
                 m_dst = vd.cap - mdl.volume(nd)
                 band_dst = self.band_cap(nd) + sum((t * W.msubs[n].per_amount('L') for n, t in td.items()), F(0))
+                if vd.cap > 0:
+                    margin_rel = min(margin_rel, abs(m_dst) / vd.cap)
                 if m_dst < -band_dst:
-                    return {'status': 'must_refuse', 'why': 'capacity', 'pair': k}
+                    return {'status': 'must_refuse', 'why': 'capacity', 'pair': k, 'margin_rel': margin_rel}
                 if m_dst < band_dst:
                     status = 'dont_care' if status == 'must_accept' else status
                     if m_dst == 0:
@@ -496,7 +501,7 @@ class Bench:
             if same and cs is not None and cd is not None:
                 pass
         return {'status': status, 'ms': ms, 'md': md, 'pairs': pairs, 'tol': tol, 'n_pairs': len(pairs),
-                'unit': unit, 'value': value, 'moved': moved_log, 'relerr_max': relerr_max}
+                'unit': unit, 'value': value, 'moved': moved_log, 'relerr_max': relerr_max, 'margin_rel': margin_rel}
 
     def ev_transfer(self, ev):
         rep, W = self.rep, self.world
@@ -536,7 +541,7 @@ class Bench:
         if status != 'unpredicted':
             self.judge(status, out, key, crash_prop='C07' if form not in ('c>c',) else 'C03',
                        known=known.get('id') if known and known.get('skip_judge') else None)
-        rec = {'form': form, 'status': status, 'out': out[0]}
+        rec = {'form': form, 'status': status, 'out': out[0], 'margin_rel': float(plan.get('margin_rel', 1))}
         if out[0] != 'ok':
             if status == 'must_refuse' or status == 'must_reject':
                 self.stats['probe:refused_infeasible'] += 1
